@@ -151,9 +151,9 @@ def audit_sources(dirs):
 def audit_props(prop, props_rel):
     """Re-compile the pinned theorem file, parse Print Assumptions output.
     Returns (ok, theorems, assumptions, output)."""
-    os.makedirs(os.path.join(WORK, prop), exist_ok=True)
+    os.makedirs(os.path.join(WORK, prop, "audit"), exist_ok=True)
     src = os.path.join(COQ, props_rel)
-    out_vo = os.path.join(WORK, prop, "Props_audit.vo")
+    out_vo = os.path.join(WORK, prop, "audit", os.path.basename(props_rel) + "o")
     rc, out = sh(["coqc", "-noglob", "-Q", COQ, "V", "-o", out_vo, src], timeout=1200)
     text = strip_coq_comments(open(src).read())
     theorems = re.findall(r"^\s*Theorem\s+([A-Za-z0-9_']+)", text, re.M)
@@ -191,7 +191,7 @@ def coq_bytes(bs):
     return "[" + "; ".join("%d%%N" % b for b in bs) + "]"
 
 
-def coq_eval_bools(prop, imports, exprs, chunk=400, timeout=1200, tag="cases"):
+def coq_eval_bools(prop, imports, exprs, chunk=400, timeout=400, tag="cases"):
     """exprs: list of Coq expressions of type bool.  Evaluates them with vm_compute inside coqc
     (sharded over NPROC processes) and returns the sorted list of indices whose value is not true,
     plus a list of (shard, error text) for shards coqc rejected."""
